@@ -7,26 +7,36 @@ use errors::Amf0SerializationError;
 use markers;
 use std::collections::HashMap;
 use Amf0Value;
+use MAX_NESTING_DEPTH;
 
 /// Serializes values into an amf0 encoded vector of bytes
 pub fn serialize(values: &Vec<Amf0Value>) -> Result<Vec<u8>, Amf0SerializationError> {
     let mut bytes = vec![];
     for value in values {
-        serialize_value(value, &mut bytes)?;
+        serialize_value(value, &mut bytes, 0)?;
     }
 
     Ok(bytes)
 }
 
-fn serialize_value(value: &Amf0Value, bytes: &mut Vec<u8>) -> Result<(), Amf0SerializationError> {
+fn serialize_value(
+    value: &Amf0Value,
+    bytes: &mut Vec<u8>,
+    depth: usize,
+) -> Result<(), Amf0SerializationError> {
+    // The deserializer refuses anything nested deeper than this, so do not produce it.
+    if depth > MAX_NESTING_DEPTH {
+        return Err(Amf0SerializationError::MaxNestingDepthExceeded);
+    }
+
     match *value {
         Amf0Value::Boolean(val) => Ok(serialize_bool(val, bytes)),
         Amf0Value::Null => Ok(serialize_null(bytes)),
         Amf0Value::Undefined => Ok(serialize_undefined(bytes)),
         Amf0Value::Number(val) => serialize_number(val, bytes),
         Amf0Value::Utf8String(ref val) => serialize_string(val, bytes),
-        Amf0Value::Object(ref val) => serialize_object(val, bytes),
-        Amf0Value::StrictArray(ref val) => serialize_strict_array(val, bytes),
+        Amf0Value::Object(ref val) => serialize_object(val, bytes, depth),
+        Amf0Value::StrictArray(ref val) => serialize_strict_array(val, bytes, depth),
     }
 }
 
@@ -63,6 +73,7 @@ fn serialize_undefined(bytes: &mut Vec<u8>) {
 fn serialize_object(
     properties: &HashMap<String, Amf0Value>,
     bytes: &mut Vec<u8>,
+    depth: usize,
 ) -> Result<(), Amf0SerializationError> {
     bytes.push(markers::OBJECT_MARKER);
 
@@ -73,7 +84,7 @@ fn serialize_object(
 
         bytes.write_u16::<BigEndian>(name.len() as u16)?;
         bytes.extend(name.as_bytes());
-        serialize_value(&value, bytes)?;
+        serialize_value(&value, bytes, depth + 1)?;
     }
 
     bytes.write_u16::<BigEndian>(markers::UTF_8_EMPTY_MARKER)?;
@@ -84,13 +95,14 @@ fn serialize_object(
 fn serialize_strict_array(
     array: &Vec<Amf0Value>,
     bytes: &mut Vec<u8>,
+    depth: usize,
 ) -> Result<(), Amf0SerializationError> {
     bytes.push(markers::STRICT_ARRAY_MARKER);
 
     bytes.write_u32::<BigEndian>(array.len() as u32)?;
 
     for value in array {
-        serialize_value(&value, bytes)?;
+        serialize_value(&value, bytes, depth + 1)?;
     }
 
     Ok(())
